@@ -74,21 +74,23 @@ ALL_TYPES = ["i8", "u8", "i16", "u16", "i32", "u32", "i64", "u64", "f32", "f64"]
 
 def plan(tier, seed, avoid):
     if tier == "quick":
-        n, per, nc, perc = 600, 25, 48, 6
+        n, per, ncfg, percfg, nc, perc = 1200, 40, 240, 60, 240, 12
     else:
-        n, per, nc, perc = 15000, 250, 1200, 25
+        n, per, ncfg, percfg, nc, perc = 24000, 400, 6000, 500, 4800, 120
     specs = [{"part": "gen", "start": s, "count": per} for s in range(0, n, per)]
     specs += [{"part": "matrix", "ty": t} for t in ALL_TYPES]
-    specs += [{"part": "cfg", "start": 0, "count": 40 if tier == "quick" else 400}]
+    specs += [{"part": "cfg", "start": s, "count": percfg, "catalogue": s == 0} for s in range(0, ncfg, percfg)]
     specs += [{"part": "c", "start": s, "count": perc} for s in range(0, nc, perc)]
     return specs
 
 
 def floors(tier):
-    return {"evaluations": 800, "distinct_nontrivial": 200, "observed.matrix_ops": 8,
-            "observed.shapes.LoopShape": 50, "observed.shapes.IfShape": 200, "observed.shapes.BreakShape": 10,
-            "observed.shapes.ContinueShape": 50, "observed.modules_run.gen": 150, "observed.modules_run.c": 5,
-            "observed.modules_run.cfg": 10}
+    # the numbers on the unchanged tree with every open finding avoided are 4-10 times these
+    return {"evaluations": 2500, "distinct_nontrivial": 600, "observed.matrix_ops": 8,
+            "observed.shapes.LoopShape": 100, "observed.shapes.IfShape": 800, "observed.shapes.ContinueShape": 100,
+            "observed.shapes.SequenceShape": 800, "observed.modules_run.gen": 250, "observed.modules_run.c": 25,
+            "observed.modules_run.cfg": 40, "observed.modules_run.matrix": 60, "observed.globals_compared": 2000,
+            "observed.trace_events_compared": 100, "observed.v8_valid": 400}
 
 
 # --------------------------------------------------------------------------
@@ -243,12 +245,21 @@ def cfg_facts(f):
         hdrs = 0
         for hd in loops:
             hdrs |= 1 << hd
+        for u in range(n):      # two-way branches get a marked merge block as well
+            if len(sc[u]) == 2:
+                hdrs |= 1 << u
+        for hd, body in loops.items():      # and so does the block following a loop
+            for x in body:
+                for y in sc[x]:
+                    if y not in body and not dom[y] >> hd & 1:
+                        hdrs |= 1 << y
         merges = {}     # merge block the detector will use -> branches using it
+        branch = {}     # two-way node -> (merge block or None, proper?)
         for u in range(n):
             if len(sc[u]) != 2:
                 continue
             strict = pdom[u] & ~(1 << u)
-            # immediate post-dominator: the strict post-dominator post-dominated by no other one...
+            # immediate post-dominator: the strict post-dominator that all other strict ones post-dominate
             ip = None
             for c in range(n + 1):
                 if strict >> c & 1:
@@ -266,14 +277,20 @@ def cfg_facts(f):
                 if dom[u] >> hd & 1 and (inner is None or bin(dom[hd]).count("1") > bin(dom[inner]).count("1")):
                     inner = hd
             proper = ip is not None and ip != n and (inner is None or (ip in loops[inner] and ip != inner))
+            branch[u] = (ip, proper)
+            if proper:
+                hdrs |= 1 << ip     # a recognised merge block is put into `marked`
+        for u, (ip, proper) in branch.items():
             if len(fsc[u]) == 2:
                 # nodes both arms reach before the merge block the detector will use (none if the
-                # merge is not recognised) are generated twice; a loop among them is lost
+                # merge is not recognised) are generated twice; a loop header, a block following a
+                # loop or a merge block among them is still in the detector's `marked` set the
+                # second time and the jump to it is dropped
                 stop = ip if proper else -1
                 sets = []
-                for a in fsc[u]:
+                for a0 in fsc[u]:
                     seen_r = 0
-                    work = [a]
+                    work = [a0]
                     while work:
                         x = work.pop()
                         if x == stop or seen_r >> x & 1:
@@ -288,7 +305,7 @@ def cfg_facts(f):
         # two nested branches with the same merge block (short-circuit && and ||): the inner one
         # generates the merge block and what follows as its own follow-up, the outer one again
         for ip, users in merges.items():
-            if len(users) > 1 and ((reach[ip] | 1 << ip) & hdrs):
+            if len(users) > 1 and ((reach[ip] | 1 << ip) & hdrs & ~(1 << ip)):
                 for u, inside in users:
                     if any(w != u and inside >> w & 1 for w, _ in users):
                         facts["unmerged_branch_before_loop"] = True
@@ -1276,7 +1293,7 @@ def neutralise_same_target(module):
 
 def part_cfg(spec, mon):
     avoid = spec["avoid"]
-    todo = [(name, body) for name, body in sorted(CATALOGUE.items())]
+    todo = [(name, body) for name, body in sorted(CATALOGUE.items())] if spec.get("catalogue", True) else []
     for idx in range(spec["start"], spec["start"] + spec["count"]):
         r = rng(spec["seed"], PROPERTY, "cfg%d" % idx)
         todo.append(("random/%d" % idx, random_skeleton(r)))
@@ -1316,6 +1333,9 @@ class CGen32:
         self.structs = "wasm-blob-copy-unsupported" not in avoid
         self.ptrinit = self.init and "wasm-global-pointer-initializer-unsupported" not in avoid
         self.nest = 1 if "structure-nested-loop-miscompiled" in avoid else 2
+        # short-circuit operators and early returns make the structure detector generate code
+        # twice; while that is an open finding such programs would only be thrown away
+        self.dup = "structure-duplicated-code-loses-loop" not in avoid
         self.tags = set()
         self.nvar = 0
         self.helpers = []
@@ -1361,7 +1381,7 @@ class CGen32:
         if k < 0.66:
             self.tags.add("comparison-value")
             return "(%s %s %s)" % (a, r.choice(["<", ">", "<=", ">=", "==", "!="]), self.expr(sc, depth + 1))
-        if k < 0.72:
+        if k < 0.72 and self.dup:
             self.tags.add("logical")
             return "(%s %s %s)" % (a, r.choice(["&&", "||"]), self.expr(sc, depth + 1))
         if k < 0.76:
@@ -1463,7 +1483,7 @@ class CGen32:
             elif k < 0.74 and in_loop:
                 self.tags.add("continue")
                 out.append("%sif (%s) continue;" % (pad, self.expr(sc, 2)))
-            elif k < 0.78:
+            elif k < 0.78 and (self.dup or r.random() < 0.2):
                 self.tags.add("early-return")
                 out.append("%sif (%s) return %s;" % (pad, self.expr(sc, 2), self.expr(sc, 2)))
             elif k < 0.84 and not sc.get("nocall"):
